@@ -153,6 +153,54 @@ fn transcript(d: &mut FrameDecoder, probe: &[u8]) -> Vec<String> {
     t
 }
 
+/// replay one `reuse dict=… probe=… hist=how:hex …` line: fresh vs reused transcript
+pub fn replay_line(run: &mut Run, line: &str) {
+    let mut dict: Vec<u8> = vec![];
+    let mut probe: Vec<u8> = vec![];
+    let mut hist: Vec<HistItem> = vec![];
+    for tok in line.split(' ').skip(1) {
+        if let Some(h) = tok.strip_prefix("dict=") {
+            dict = unhex(h).unwrap_or_default();
+        } else if let Some(h) = tok.strip_prefix("probe=") {
+            probe = unhex(h).unwrap_or_default();
+        } else if let Some(h) = tok.strip_prefix("hist=") {
+            let mut it = h.splitn(2, ':');
+            let how = it.next().and_then(|x| x.parse().ok()).unwrap_or(0);
+            let frame = unhex(it.next().unwrap_or("-")).unwrap_or_default();
+            hist.push(HistItem { frame, how, label: "replay".into() });
+        }
+    }
+    let make = || {
+        let mut d = FrameDecoder::new();
+        if !dict.is_empty() {
+            if let Ok(dd) = Dictionary::decode_dict(&dict) {
+                let _ = d.add_dict(dd);
+            }
+        }
+        d
+    };
+    let res = guarded(|| {
+        let mut fresh = make();
+        let a = transcript(&mut fresh, &probe);
+        let mut reused = make();
+        for h in &hist {
+            apply_history(&mut reused, h);
+        }
+        (a, transcript(&mut reused, &probe))
+    });
+    match res {
+        Err(p) => run.fail("C03", "panic_reuse", format!("panic: {}", p), line.to_string()),
+        Ok((a, b)) => {
+            for (x, y) in a.iter().zip(b.iter()) {
+                println!("fresh : {}\nreused: {}", x, y);
+            }
+            if a != b {
+                run.fail("C07", "reuse_differs", "reused decoder differs from a fresh one".into(), line.to_string());
+            }
+        }
+    }
+}
+
 pub fn run(opts: &Opts) -> Run {
     let mut run = Run::new("reuse");
     let mut rng = Rng::new(opts.seed ^ 0x7e05e);
